@@ -20,14 +20,31 @@ def fnSem : String → Option (Rat → Rat → Bool)
   | "ge" => some (fun a b => decide (a ≥ b))
   | "le" => some (fun a b => decide (a ≤ b))
   | "eq" => some (fun a b => decide (a = b))
+  -- the numpy ufuncs of the same meaning (a harmless rewrite of the table: `numpy.greater` for `operator.gt`, …)
+  | "greater" => some (fun a b => decide (a > b))
+  | "less" => some (fun a b => decide (a < b))
+  | "greater_equal" => some (fun a b => decide (a ≥ b))
+  | "less_equal" => some (fun a b => decide (a ≤ b))
+  | "equal" => some (fun a b => decide (a = b))
   | _ => none
 
 /-- tags instead of functions so that equality is decidable -/
 def symTag : String → Option String
   | ">" => some "gt" | "<" => some "lt" | ">=" => some "ge" | "<=" => some "le" | "==" => some "eq" | _ => none
 
-/-- every symbol in the code's table is mapped to the `operator` function with that symbol's meaning -/
-theorem operators_sound : ∀ p ∈ Generated.filterOperators, symTag p.1 = some p.2 := by decide
+/-- the function names (of `operator` or of `numpy`) that mean what the symbol means -/
+def symTags : String → List String
+  | ">" => ["gt", "greater"] | "<" => ["lt", "less"] | ">=" => ["ge", "greater_equal"] | "<=" => ["le", "less_equal"]
+  | "==" => ["eq", "equal"] | _ => []
+
+/-- every symbol in the code's table is mapped to a function (`operator.gt` / `numpy.greater` …) with that symbol's meaning -/
+theorem operators_sound : ∀ p ∈ Generated.filterOperators, p.2 ∈ symTags p.1 := by decide
+
+/-- every accepted function name means what the symbol means -/
+theorem tags_sem (s f : String) (h : f ∈ symTags s) : ∀ a b : Rat, (symSem s).map (· a b) = (fnSem f).map (· a b) := by
+  intro a b
+  unfold symTags at h
+  split at h <;> simp at h <;> rcases h with rfl | rfl <;> simp [symSem, fnSem]
 
 /-- all five operators of the property are present -/
 theorem operators_complete : ∀ s ∈ [">", "<", ">=", "<=", "=="], (Generated.filterOperators.lookup s).isSome = true := by
